@@ -569,8 +569,8 @@ Qed.
 
 Lemma to_dense_no_crash du i : to_dense du i <> Crash.
 Proof.
-  unfold to_dense. destruct (float_overflow (Qred (fst (to_default du i)))); [discriminate|].
-  destruct (float_overflow (Qred (snd (to_default du i)))); discriminate.
+  unfold to_dense. destruct (dense_overflow (Qred (fst (to_default du i)))); [discriminate|].
+  destruct (dense_overflow (Qred (snd (to_default du i)))); discriminate.
 Qed.
 
 (* dense time never rejects a bound for being off a grid: the only failures are those of the parser and a bound
@@ -582,7 +582,8 @@ Theorem normalize_dense_total du ce u v :
   exists q, normalize_dense du ce u = Ok q.
 Proof.
   intros P Hall. unfold normalize_dense. rewrite P. simpl.
-  apply bmapM_total. intros i Hi. destruct (Hall i Hi) as [H1 H2]. unfold to_dense. rewrite H1, H2. eauto.
+  apply bmapM_total. intros i Hi. destruct (Hall i Hi) as [H1 H2]. unfold to_dense, dense_overflow.
+  rewrite H1, H2, !andb_false_r. eauto.
 Qed.
 
 Theorem normalize_dense_no_crash du ce u : normalize_dense du ce u <> Crash.
@@ -598,8 +599,8 @@ Lemma to_dense_exact du i be :
   to_dense du i = Ok be ->
   fst be * inject_Z (uval du) == begin_ns du i /\ snd be * inject_Z (uval du) == end_ns du i.
 Proof.
-  unfold to_dense. destruct (float_overflow (Qred (fst (to_default du i)))); [discriminate|].
-  destruct (float_overflow (Qred (snd (to_default du i)))); [discriminate|].
+  unfold to_dense. destruct (dense_overflow (Qred (fst (to_default du i)))); [discriminate|].
+  destruct (dense_overflow (Qred (snd (to_default du i)))); [discriminate|].
   intros H.
   assert (Ebe : be = (Qred (fst (to_default du i)), Qred (snd (to_default du i)))) by congruence.
   subst be. cbn [fst snd]. rewrite !Qred_correct. apply to_default_exact.
